@@ -578,7 +578,7 @@ class PolicyJsonStream(Stream):
         for case in src:
             if made >= n:
                 break
-            ops = [o for o in case['ops'] if o[0] != 'custom_attr'][:6]
+            ops = [o for o in case['ops'] if o[0] not in ('custom_attr', '@json')][:6]
             if rng.random() < 0.5:
                 ops = []
             c = {'ctor': case['ctor'], 'ops': ops}
